@@ -5,6 +5,7 @@ of exp(log_marginal_likelihood) from proper weighting is cited (A-MATH)."""
 from __future__ import annotations
 
 import types
+from vt.stubs.ns import StubNS
 
 import z3
 
@@ -54,9 +55,9 @@ def jax_vmap(f, in_axes=0, **kw):
 
 smc.jnp = JNP
 smc.jtu = jtu_stub.namespace()
-smc.jax = types.SimpleNamespace(
-    scipy=types.SimpleNamespace(special=types.SimpleNamespace(logsumexp=jnp_stub.logsumexp)),
-    lax=types.SimpleNamespace(cond=lax_stub.cond, scan=lax_stub.scan),
+smc.jax = StubNS(
+    scipy=StubNS(special=StubNS(logsumexp=jnp_stub.logsumexp)),
+    lax=StubNS(cond=lax_stub.cond, scan=lax_stub.scan),
     vmap=jax_vmap,
     numpy=JNP,
 )
@@ -617,3 +618,8 @@ class RejuvenationSMC(_NoReplay):
 from vt.contract import track as _track  # noqa: E402
 
 _track((UNI, "sample_calls"), CATS.calls, *jnp_stub.CALLS.values())
+
+from vt.contract import canary as _canary  # noqa: E402
+
+_canary(Resample, "systematic", "estimate_absorbs_average_weight")
+_canary(Init, "custom_proposal", "weight_is_target_weight_of_merged_choices_minus_log_q")
